@@ -53,6 +53,7 @@ type RunResult struct {
 	Diverged    int            `json:"diverged,omitempty"`
 	StepLimit   bool           `json:"step_limit,omitempty"`
 	Leaked      []string       `json:"leaked,omitempty"`
+	TeardownCrashes []simhook.Crash `json:"teardown_crashes,omitempty"`
 	Unreg       int64          `json:"unregistered_yields,omitempty"`
 	LockMiss    int64          `json:"lock_model_miss,omitempty"`
 	HistTail    []Ev           `json:"hist_tail,omitempty"`
@@ -106,7 +107,14 @@ func RunOne(t *testing.T, fam *Family, params any, seed uint64, o RunOpts) (res 
 		e.start = time.Now()
 		defer simhook.EndWorld()
 
-		fam.Exec(e, params)
+		func() {
+			defer func() {
+				if r := recover(); r != nil {
+					res.Infra = "panic in harness (bubble main): " + fmt.Sprint(r) + "\n" + string(stack())
+				}
+			}()
+			fam.Exec(e, params)
+		}()
 
 		res.SimTime = time.Since(e.start)
 		res.Steps = e.Step
@@ -131,8 +139,12 @@ func RunOne(t *testing.T, fam *Family, params any, seed uint64, o RunOpts) (res 
 			res.WaitGraph = e.WaitGraph()
 		}
 		_, res.Events = e.W.Events()
+		ncr := len(res.Crashes)
 		e.Teardown()
 		res.Leaked = e.Leaked()
+		if cs := e.W.Crashes(); len(cs) > ncr {
+			res.TeardownCrashes = cs[ncr:]
+		}
 		var y, u, lm int64
 		y, u, lm, res.Tasks = e.W.Stats()
 		res.Yields, res.Unreg, res.LockMiss = y, u, lm
